@@ -157,3 +157,37 @@ def check(ctx, cfg, prog, mod, rule):
                            'the next iteration' if lost == h else 'a return (line %d)' % b.blocks[lost].term.line),
                        site='%s:%d' % (b.file, b.blocks[bind_bb].term.line))
     ctx.floor('%s: element loops in the dedup family' % rule, 5, n_loops, cfg)
+
+
+ORDER_PREFIX = 'core::delaunay_triangulation::order_vertices_'
+NARROWING = {'filter', 'filter_map', 'take', 'skip', 'step_by', 'take_while', 'skip_while', 'truncate', 'retain',
+             'retain_mut', 'dedup', 'dedup_by', 'dedup_by_key', 'pop', 'drain', 'split_off', 'swap_remove', 'remove',
+             'chain', 'cycle', 'flat_map', 'nth', 'last', 'clear'}
+
+
+def check_orderings(ctx, cfg, prog, mod, rule):
+    """The ordering strategies return a permutation of their input: they move every vertex through
+    enumerate / map / sort / collect and never apply a narrowing or duplicating adaptor to a vertex sequence."""
+    n = 0
+    for q, b in sorted(prog.bodies.items()):
+        root = b.root or q
+        if not root.startswith(ORDER_PREFIX):
+            continue
+        if b.kind != 'closure':
+            n += 1
+        bad = []
+        for bb, t in b.calls():
+            nm = (t.callee or t.resolved or '')
+            last = nm.rsplit('::', 1)[-1]
+            if last not in NARROWING:
+                continue
+            st = (t.func.const.get('selfty') or '') if t.func is not None and t.func.kind == 'k' else ''
+            argty = ' '.join(b.locals[o.place.local] for o in t.args if o.place is not None)
+            if 'vertex::Vertex<' in st or 'vertex::Vertex<' in argty:
+                bad.append((last, t.line))
+        if b.kind != 'closure' or bad:
+            ctx.ob(rule, '%s|permutation' % q, cfg, not bad,
+                   'no narrowing / duplicating adaptor on a vertex sequence' if not bad else
+                   'adaptor(s) %s applied to a vertex sequence: the ordering no longer returns a permutation of its input' % bad,
+                   site='%s:%d' % (b.file, b.line))
+    ctx.floor('%s: ordering strategy functions' % rule, 3, n, cfg)
